@@ -63,6 +63,7 @@ type Inc struct {
 	deadCh   chan struct{}
 	conf     *raft.Config
 	shutdown bool // Shutdown() was called by the harness (graceful)
+	shutdownDone bool
 
 	// polled state, for monotonicity and change detection
 	lastCommit  uint64
@@ -75,6 +76,14 @@ type Inc struct {
 	openedSnapIdx uint64
 	beyondSince time.Duration
 	bootFaults  int64
+	cfgHist     []cfgHistRec
+	lastCfgIdx  uint64
+}
+
+type cfgHistRec struct {
+	seq int64
+	idx uint64
+	cfg raft.Configuration
 }
 
 type noteRec struct {
@@ -117,6 +126,8 @@ type World struct {
 	samples []string
 	maxViol int
 	journal []JournalRec
+	idleRounds int
+	finishing  bool
 }
 
 func (w *World) now() time.Duration { return time.Since(w.t0) }
@@ -323,12 +334,28 @@ func (w *World) crashNow(n *Node, why string) {
 
 // ------------------------------------------------------------------ root loop
 
-// Run executes the scenario to completion and returns the result.
+// runLoop is the root loop of the main phase: until the step / virtual-time budget is
+// used up, the quiet period has converged, or too many violations were recorded.
 func (w *World) runLoop() {
+	cfg := w.cfg
+	w.loop(func() bool {
+		if len(w.viol) >= w.maxViol || w.ended {
+			return true
+		}
+		limit := cfg.MaxSteps
+		if w.quiet {
+			limit = cfg.MaxSteps * 2 // the quiet period may use extra steps to reach its bound
+		}
+		return w.sim.Steps >= limit || w.now() >= cfg.MaxVTime
+	}, true)
+}
+
+// loop releases one goroutine per iteration until stop() holds. It returns true if the
+// bubble went idle (nothing runnable) for idleLimit consecutive idle quanta.
+func (w *World) loop(stop func() bool, mainPhase bool) {
 	sim := w.sim
 	cfg := w.cfg
-	idleRounds := 0
-	for !w.ended {
+	for {
 		synctest.Wait()
 		sim.RootTurn()
 		// panics of node goroutines are process crashes
@@ -336,33 +363,29 @@ func (w *World) runLoop() {
 			w.onPanic(p)
 		}
 		w.pollStep()
-		if len(w.viol) >= w.maxViol {
-			break
+		w.flt.expire()
+		if stop() {
+			return
 		}
-		if sim.Steps >= cfg.MaxSteps || w.now() >= cfg.MaxVTime {
-			break
-		}
-		w.phase()
-		if w.ended {
-			break
-		}
-		if !w.quiet {
-			w.flt.maybeInject()
+		if mainPhase {
+			w.phase()
+			if !w.quiet {
+				w.flt.maybeInject()
+			}
 		}
 		cands := sim.Candidates()
 		if len(cands) == 0 {
 			// nothing runnable: let virtual time move to the next timer
 			sim.DrainSig()
-			idle := cfg.IdleQuantum
+			w.idleRounds++
 			select {
 			case <-sim.Sig():
-				idleRounds = 0
-			case <-time.After(idle):
-				idleRounds++
+				w.idleRounds = 0
+			case <-time.After(cfg.IdleQuantum):
 			}
 			continue
 		}
-		idleRounds = 0
+		w.idleRounds = 0
 		sim.DrainSig()
 		var g *simrt.G
 		if len(cands) == 1 {
@@ -372,7 +395,6 @@ func (w *World) runLoop() {
 		}
 		sim.Release(g)
 	}
-	_ = idleRounds
 }
 
 func (w *World) onPanic(p simrt.PanicInfo) {
